@@ -395,6 +395,7 @@ class Engine:
         return None
 
     def apply_contract(self, c, recv_node, recv, args, st, line):
+        self.used.add(c.key)
         names = [p for p, _ in c.params]
         o = {}
         if recv is not None: o[names[0]] = recv; rest = names[1:]
@@ -623,7 +624,7 @@ class Engine:
 
     # ------------------------------------------------------------------ per-function driver
     def generate(self, key, fn):
-        c = self.w.contracts[key]; self.cur, self.cur_key, self.obls = c, key, []
+        c = self.w.contracts[key]; self.cur, self.cur_key, self.obls = c, key, []; self.used = set()
         env = {n: t.fresh(n) for n, t in c.params}; old = dict(env)
         for n in old: env['$param:' + n] = old[n]; env['$old.' + n] = old[n]
         st = State(env, [])
